@@ -132,3 +132,19 @@ Print Assumptions C08_mask_v6.
 Theorem C08_mask_idempotent : forall ip, anonymize (anonymize ip) = anonymize ip.
 Proof. exact anonymize_idempotent. Qed.
 Print Assumptions C08_mask_idempotent.
+
+(** The configured flag (what the API shows) and the mutator shared with the
+    DNS server stay equal under ANY sequence of configuration requests, new
+    (all fields mandatory) or deprecated (every field optional), so "configured
+    on" implies that recorded addresses are masked. *)
+Theorem C08_anonymizer_in_sync : forall enabled anon ops,
+  in_sync (fold_left conf_step ops (conf_init enabled anon)).
+Proof. exact conf_always_in_sync. Qed.
+Print Assumptions C08_anonymizer_in_sync.
+
+Theorem C08_configured_anon_masks : forall enabled anon ops ev q,
+  let c := fold_left conf_step ops (conf_init enabled anon) in
+  e_anon ev = qc_mut c -> qc_anon c = true ->
+  recorded_ip ev q = anonymize (fst (q_addr q)) /\ masked (recorded_ip ev q).
+Proof. exact configured_anon_masks. Qed.
+Print Assumptions C08_configured_anon_masks.
